@@ -138,3 +138,304 @@ Theorem route_unique (descs : list (bytes * bytes)) incoming d1 d2 :
 Proof.
   intros Hnd H1 H2 M1 M2. eapply NoDup_map_fst_inj; eauto. eapply match_name_determined; eauto.
 Qed.
+
+(* ---- the rule on the whole numeric domain ---- *)
+Theorem match_general incoming pre n v name supported SM Sm Sp PM Pm Pp :
+  split slash incoming = [pre; n; v] ->
+  parse_version supported = VNum SM Sm Sp -> parse_version v = VNum PM Pm Pp ->
+  match_id incoming name supported =
+    if bytes_eqb n name && (SM =? PM) && (Pm <=? Sm) then Match else NoMatch.
+Proof. intros H1 H2 H3. unfold match_id. rewrite H1, H2, H3. destruct (bytes_eqb n name); reflexivity. Qed.
+
+Lemma join_split sep l : join sep (split sep l) = l.
+Proof.
+  induction l as [|c r IH]; [reflexivity|]. cbn [split].
+  destruct (N.eqb_spec c sep) as [->|Hne].
+  - pose proof (split_nonempty sep r) as Hn. destruct (split sep r) as [|h t] eqn:E; [contradiction|].
+    change (join sep ([] :: h :: t)) with ([] ++ sep :: join sep (h :: t)). rewrite IH. reflexivity.
+  - pose proof (split_nonempty sep r) as Hn. destruct (split sep r) as [|h t] eqn:E; [contradiction|].
+    destruct t as [|h2 t2].
+    + cbn [join] in *. rewrite IH. reflexivity.
+    + change (join sep ((c :: h) :: h2 :: t2)) with ((c :: h) ++ sep :: join sep (h2 :: t2)).
+      change (join sep (h :: h2 :: t2)) with (h ++ sep :: join sep (h2 :: t2)) in IH.
+      rewrite <- IH. reflexivity.
+Qed.
+
+Definition numeric (a : bytes) (M : N) : Prop := a <> [] /\ all_digits a = true /\ dec_value a = M.
+
+Lemma parse_dec_numeric a M : parse_dec a = Some M <-> numeric a M.
+Proof.
+  unfold parse_dec, numeric. destruct a as [|c r].
+  - split; [discriminate|]. intros [H _]. contradiction.
+  - destruct (all_digits (c :: r)).
+    + split; [intros H; inversion H; repeat split; discriminate|]. intros (_ & _ & H). rewrite H. reflexivity.
+    + split; [discriminate|]. intros (_ & H & _). discriminate.
+Qed.
+
+Theorem parse_version_num v M m p :
+  parse_version v = VNum M m p <->
+  exists a b c, v = a ++ dot :: b ++ dot :: c /\ numeric a M /\ numeric b m /\ numeric c p /\
+                M < two64 /\ m < two64 /\ p < two64.
+Proof.
+  split.
+  - unfold parse_version, parse_component. intros H.
+    destruct (split dot v) as [|a [|b [|c [|d r]]]] eqn:Es; try discriminate.
+    destruct (parse_dec a) as [M'|] eqn:Ea; [|discriminate].
+    destruct (parse_dec b) as [m'|] eqn:Eb; [|discriminate].
+    destruct (parse_dec c) as [p'|] eqn:Ec; [|discriminate].
+    destruct ((M' <? two64) && (m' <? two64) && (p' <? two64)) eqn:Er; [|discriminate].
+    inversion H; subst. exists a, b, c.
+    rewrite <- (join_split dot v), Es. cbn [join].
+    apply parse_dec_numeric in Ea, Eb, Ec. repeat split; try apply Ea; try apply Eb; try apply Ec; lia.
+  - intros (a & b & c & -> & Ha & Hb & Hc & HM & Hm & Hp).
+    assert (Hnd : forall s z, numeric s z -> ~ In dot s).
+    { intros s z (_ & Hd & _). apply all_digits_not_in; [exact Hd|reflexivity]. }
+    unfold parse_version, parse_component.
+    rewrite split_app_sep by (eapply Hnd; eauto). rewrite split_app_sep by (eapply Hnd; eauto).
+    rewrite split_nosep by (eapply Hnd; eauto).
+    apply parse_dec_numeric in Ha, Hb, Hc. rewrite Ha, Hb, Hc.
+    replace ((M <? two64) && (m <? two64) && (p <? two64)) with true by lia. reflexivity.
+Qed.
+
+(* ---- no crash ---- *)
+Lemma match_id_o_total incoming name supported :
+  match_id_o incoming name supported = Ok (match_id incoming name supported).
+Proof.
+  unfold match_id_o, match_id_gen, match_id, nv_model, index_o.
+  destruct (split slash incoming) as [|a [|b [|c [|d r]]]]; try reflexivity.
+  cbn. destruct (bytes_eqb b name); cbn; [|reflexivity].
+  destruct (parse_version supported), (parse_version c); reflexivity.
+Qed.
+
+Theorem no_crash nv incoming name supported :
+  (forall s, nv s <> Panic) -> match_id_gen nv incoming name supported <> Panic.
+Proof.
+  intros Hnv. unfold match_id_gen, index_o.
+  destruct (split slash incoming) as [|a [|b [|c [|d r]]]]; try (cbn; discriminate).
+  cbn. destruct (negb (bytes_eqb b name)); [discriminate|].
+  pose proof (Hnv supported) as H1. pose proof (Hnv c) as H2.
+  destruct (nv supported); [|discriminate|contradiction].
+  destruct (nv c); [discriminate|discriminate|contradiction].
+Qed.
+
+Corollary no_crash_model incoming name supported : match_id_o incoming name supported <> Panic.
+Proof. apply no_crash. intros s. discriminate. Qed.
+
+(* the crash constructor is reachable: without the length test the empty identifier crashes *)
+Example unguarded_crashes : match_id_unguarded nv_model [] (bos "preconf") (bos "1.0.0") = Panic.
+Proof. vm_compute. reflexivity. Qed.
+Example unguarded_crashes2 : match_id_unguarded nv_model (bos "/preconf") (bos "preconf") (bos "1.0.0") = Panic.
+Proof. vm_compute. reflexivity. Qed.
+
+(* ---- routing ---- *)
+Lemma add_handlers_snoc ds : forall hs k d,
+  add_handlers hs k (ds ++ [d]) = add_handler (add_handlers hs k ds) (k + N.of_nat (length ds)) d.
+Proof.
+  induction ds as [|e r IH]; intros hs k d; cbn [add_handlers app length].
+  - rewrite N.add_0_r. reflexivity.
+  - rewrite IH. f_equal. lia.
+Qed.
+
+Lemma number_snoc ds : forall k d, number k (ds ++ [d]) = number k ds ++ [(k + N.of_nat (length ds), d)].
+Proof.
+  induction ds as [|e r IH]; intros k d; cbn [number app length].
+  - rewrite N.add_0_r. reflexivity.
+  - rewrite IH. replace (k + 1 + N.of_nat (length r)) with (k + N.of_nat (S (length r))) by lia. reflexivity.
+Qed.
+
+Lemma number_bounds ds : forall k j d, In (j, d) (number k ds) -> k <= j < k + N.of_nat (length ds).
+Proof.
+  induction ds as [|e r IH]; intros k j d H; cbn in H; [contradiction|].
+  destruct H as [H|H].
+  - inversion H; subst. cbn [length]. lia.
+  - apply IH in H. cbn [length]. lia.
+Qed.
+
+Lemma number_nth ds : forall k j d,
+  In (j, d) (number k ds) <-> k <= j /\ nth_error ds (N.to_nat (j - k)) = Some d.
+Proof.
+  induction ds as [|e r IH]; intros k j d; cbn [number].
+  - split; [contradiction|]. intros [_ H]. destruct (N.to_nat (j - k)); discriminate.
+  - split.
+    + intros [H|H].
+      * inversion H; subst. rewrite N.sub_diag. split; [lia|reflexivity].
+      * pose proof (number_bounds _ _ _ _ H) as Hb. apply IH in H as [Hk Hn]. split; [lia|].
+        replace (N.to_nat (j - k)) with (S (N.to_nat (j - (k + 1)))) by lia. exact Hn.
+    + intros [Hk Hn]. destruct (N.eq_dec j k) as [->|Hne].
+      * rewrite N.sub_diag in Hn. cbn in Hn. inversion Hn; subst. left; reflexivity.
+      * right. apply IH. split; [lia|].
+        replace (N.to_nat (j - k)) with (S (N.to_nat (j - (k + 1)))) in Hn by lia. exact Hn.
+Qed.
+
+Lemma remove_handler_in n hs h :
+  NoDup (map h_name hs) -> (In h (remove_handler n hs) <-> In h hs /\ h_name h <> n).
+Proof.
+  induction hs as [|g r IH]; intros Hnd; cbn [remove_handler].
+  - split; [contradiction|]. intros [[] _].
+  - cbn [map] in Hnd. inversion Hnd as [|? ? Hnot Hnd']; subst.
+    destruct (bytes_eqb (h_name g) n) eqn:E.
+    + apply bytes_eqb_eq in E. split.
+      * intros H. split; [right; exact H|]. intros Hn. apply Hnot. rewrite E, <- Hn. apply in_map. exact H.
+      * intros [[->|H] Hn]; [contradiction|exact H].
+    + apply bytes_eqb_neq in E. split.
+      * intros [->|H]; [split; [left; reflexivity|exact E]|]. apply IH in H as [H1 H2]; [|exact Hnd'].
+        split; [right; exact H1|exact H2].
+      * intros [[->|H] Hn]; [left; reflexivity|]. right. apply IH; [exact Hnd'|]. split; assumption.
+Qed.
+
+Lemma remove_handler_nodup n hs : NoDup (map h_name hs) -> NoDup (map h_name (remove_handler n hs)).
+Proof.
+  induction hs as [|g r IH]; intros Hnd; cbn [remove_handler]; [exact Hnd|].
+  cbn [map] in Hnd. inversion Hnd as [|? ? Hnot Hnd']; subst.
+  destruct (bytes_eqb (h_name g) n); [exact Hnd'|].
+  cbn [map]. constructor; [|apply IH; exact Hnd'].
+  intros H. apply in_map_iff in H as (h & Hh & Hin). apply remove_handler_in in Hin as [Hin _]; [|exact Hnd'].
+  apply Hnot. rewrite <- Hh. apply in_map. exact Hin.
+Qed.
+
+
+Lemma NoDup_snoc (A : Type) (l : list A) a : NoDup l -> ~ In a l -> NoDup (l ++ [a]).
+Proof.
+  induction l as [|b r IH]; intros Hnd Hn; cbn.
+  - constructor; [intros []|constructor].
+  - inversion Hnd as [|? ? Hb Hr]; subst. constructor.
+    + rewrite in_app_iff. intros [H|[H|[]]]; [contradiction|]. apply Hn. left. symmetry. exact H.
+    + apply IH; [exact Hr|]. intros H. apply Hn. right. exact H.
+Qed.
+
+(* [h] is the last registration of its name among the numbered registrations [l] *)
+Definition last_of_name (l : list handler) (h : handler) : Prop :=
+  In h l /\ forall g, In g l -> h_name g = h_name h -> fst g <= fst h.
+
+Lemma table_char ds :
+  NoDup (map h_name (table ds)) /\ forall h, In h (table ds) <-> last_of_name (number 1 ds) h.
+Proof.
+  unfold table. induction ds as [|d ds IH] using rev_ind.
+  - cbn. split; [constructor|]. intros h. split; [contradiction|]. intros [[] _].
+  - destruct IH as [Hnd Hch]. rewrite add_handlers_snoc, number_snoc. unfold add_handler.
+    set (k0 := 1 + N.of_nat (length ds)).
+    set (T := add_handlers [] 1 ds) in *.
+    assert (Hin' : forall h, In h (remove_handler (fst d) T ++ [(k0, d)]) <->
+                             (In h T /\ h_name h <> fst d) \/ h = (k0, d)).
+    { intros h. rewrite in_app_iff, remove_handler_in by exact Hnd. cbn. intuition congruence. }
+    split.
+    + rewrite map_app. cbn [map]. apply NoDup_snoc; [apply remove_handler_nodup; exact Hnd|].
+      intros H. apply in_map_iff in H as (h & Hh & Hin). apply remove_handler_in in Hin as [_ Hne]; [|exact Hnd].
+      apply Hne. exact Hh.
+    + intros h. rewrite Hin'. unfold last_of_name. split.
+      * intros [[Hin Hne]| -> ].
+        -- apply Hch in Hin as [Hin Hlast]. split; [apply in_or_app; left; exact Hin|].
+           intros g Hg Hname. apply in_app_or in Hg as [Hg|[ <- | [] ]]; [apply Hlast; assumption|].
+           exfalso. apply Hne. rewrite <- Hname. reflexivity.
+        -- split; [apply in_or_app; right; left; reflexivity|].
+           intros g Hg _. apply in_app_or in Hg as [Hg|[ <- | [] ]]; [|cbn [fst]; lia].
+           destruct g as [j e]. apply number_bounds in Hg. cbn [fst]. unfold k0. lia.
+      * intros [Hin Hlast]. apply in_app_or in Hin as [Hin|[ <- | [] ]]; [|right; reflexivity].
+        left. assert (Hne : h_name h <> fst d).
+        { intros Heq. specialize (Hlast (k0, d)). cbn in Hlast.
+          assert (k0 <= fst h) by (apply Hlast; [apply in_or_app; right; left; reflexivity|symmetry; exact Heq]).
+          destruct h as [j e]. apply number_bounds in Hin. cbn [fst] in H. unfold k0 in H. lia. }
+        split; [|exact Hne]. apply Hch. split; [exact Hin|].
+        intros g Hg Hname. apply Hlast; [apply in_or_app; left; exact Hg|exact Hname].
+Qed.
+
+Lemma find_handler_some hs incoming h :
+  find_handler hs incoming = Some h -> In h hs /\ match_id incoming (fst (snd h)) (snd (snd h)) = Match.
+Proof.
+  unfold find_handler. intros H. apply find_some in H as [H1 H2]. split; [exact H1|]. cbv beta in H2.
+  match type of H2 with is_match ?t = true => change (t = Match); destruct t; [reflexivity|discriminate H2|discriminate H2] end.
+Qed.
+
+Lemma NoDup_map_inj (A B : Type) (f : A -> B) (l : list A) a b :
+  NoDup (map f l) -> In a l -> In b l -> f a = f b -> a = b.
+Proof.
+  induction l as [|c r IH]; intros Hnd Ha Hb Hf; [contradiction|].
+  cbn [map] in Hnd. inversion Hnd as [|? ? Hnot Hnd']; subst.
+  destruct Ha as [->|Ha], Hb as [->|Hb].
+  - reflexivity.
+  - exfalso. apply Hnot. rewrite Hf. apply in_map. exact Hb.
+  - exfalso. apply Hnot. rewrite <- Hf. apply in_map. exact Ha.
+  - apply IH; assumption.
+Qed.
+
+(* the handler an identifier reaches: the last registration of its name whose descriptor matches *)
+Theorem route_spec ds incoming h :
+  route ds incoming = Some h <->
+  last_of_name (number 1 ds) h /\ match_id incoming (fst (snd h)) (snd (snd h)) = Match.
+Proof.
+  destruct (table_char ds) as [Hnd Hch]. unfold route. split.
+  - intros H. apply find_handler_some in H as [H1 H2]. split; [apply Hch; exact H1|exact H2].
+  - intros [Hl Hm]. apply Hch in Hl.
+    destruct (find_handler (table ds) incoming) as [g|] eqn:E.
+    + apply find_handler_some in E as [G1 G2]. f_equal.
+      apply (NoDup_map_inj _ _ h_name (table ds)); try assumption.
+      unfold h_name. eapply match_name_determined; eassumption.
+    + unfold find_handler in E. apply (find_none _ _ E) in Hl. cbv beta in Hl. change (is_match (match_id incoming (fst (snd h)) (snd (snd h))) = false) in Hl. rewrite Hm in Hl. discriminate.
+Qed.
+
+Theorem route_none ds incoming :
+  route ds incoming = None <->
+  forall h, last_of_name (number 1 ds) h -> match_id incoming (fst (snd h)) (snd (snd h)) <> Match.
+Proof.
+  split.
+  - intros H h Hl Hm. assert (route ds incoming = Some h) by (apply route_spec; split; assumption). congruence.
+  - intros H. destruct (route ds incoming) as [h|] eqn:E; [|reflexivity].
+    apply route_spec in E as [Hl Hm]. exfalso. eapply H; eassumption.
+Qed.
+
+(* pairwise distinct names (the node's own protocols): every registration is the last of its name *)
+Lemma number_names ds : forall k, map h_name (number k ds) = map fst ds.
+Proof. induction ds as [|d r IH]; intros k; cbn; [reflexivity|]. rewrite IH. reflexivity. Qed.
+
+Lemma last_of_name_nodup ds h :
+  NoDup (map fst ds) -> (last_of_name (number 1 ds) h <-> In h (number 1 ds)).
+Proof.
+  intros Hnd. unfold last_of_name. split; [intros [H _]; exact H|].
+  intros H. split; [exact H|]. intros g Hg Hname.
+  rewrite <- (number_names ds 1) in Hnd.
+  assert (g = h) by (eapply NoDup_map_inj; eassumption). subst. lia.
+Qed.
+
+Theorem route_spec_nodup ds incoming k d :
+  NoDup (map fst ds) ->
+  (route ds incoming = Some (k, d) <->
+   1 <= k /\ nth_error ds (N.to_nat (k - 1)) = Some d /\ match_id incoming (fst d) (snd d) = Match).
+Proof.
+  intros Hnd. rewrite route_spec, last_of_name_nodup by exact Hnd. rewrite number_nth. cbn. tauto.
+Qed.
+
+Theorem route_none_nodup ds incoming :
+  NoDup (map fst ds) ->
+  (route ds incoming = None <-> forall d, In d ds -> match_id incoming (fst d) (snd d) <> Match).
+Proof.
+  intros Hnd. rewrite route_none. split.
+  - intros H d Hd. apply In_nth_error in Hd as [i Hi].
+    apply (H (1 + N.of_nat i, d)). apply last_of_name_nodup; [exact Hnd|].
+    apply number_nth. split; [lia|]. replace (N.to_nat (1 + N.of_nat i - 1)) with i by lia. exact Hi.
+  - intros H [k d] Hl. apply last_of_name_nodup in Hl; [|exact Hnd]. apply number_nth in Hl as [_ Hl].
+    apply nth_error_In in Hl. cbn. apply H. exact Hl.
+Qed.
+
+(* registering a name again replaces the earlier handler: it is never reached, whatever its version *)
+Theorem route_replaced ds incoming k d j e :
+  route ds incoming = Some (k, d) -> In (j, e) (number 1 ds) -> fst e = fst d -> j <= k.
+Proof.
+  intros H Hin Hname. apply route_spec in H as [[_ Hlast] _]. apply (Hlast (j, e) Hin). exact Hname.
+Qed.
+
+Example route_instance :
+  let ds := [(bos "alpha", bos "1.2.0"); (bos "beta", bos "2.0.5"); (bos "alpha", bos "2.1.0")] in
+  route ds (bos "/beta/2.0.0") = Some (2, (bos "beta", bos "2.0.5")) /\
+  route ds (bos "/alpha/2.0.7") = Some (3, (bos "alpha", bos "2.1.0")) /\
+  route ds (bos "/alpha/1.0.0") = None /\          (* the first registration was replaced *)
+  route ds (bos "/beta/2.1.0") = None /\ route ds (bos "/gamma/1.0.0") = None.
+Proof. vm_compute. repeat split; reflexivity. Qed.
+
+(* non-vacuity of match_general / parse_version_num beyond the canonical spelling: leading zeros and a
+   non-empty first segment are judged by the same rule *)
+Example match_general_instance :
+  match_id (bos "junk/preconf/01.002.3") (bos "preconf") (bos "1.2.0") = Match
+  /\ match_id (bos "/preconf/01.003.0") (bos "preconf") (bos "1.02.0") = NoMatch
+  /\ parse_version (bos "01.002.3") = VNum 1 2 3
+  /\ parse_version (bos "18446744073709551616.0.0") = VErr.
+Proof. vm_compute. repeat split; reflexivity. Qed.
